@@ -24,6 +24,7 @@ import (
 	"github.com/idena-network/idena-go/blockchain/types"
 	"github.com/idena-network/idena-go/blockchain/validation"
 	"github.com/idena-network/idena-go/common"
+	"github.com/idena-network/idena-go/core/state"
 	"github.com/idena-network/idena-go/stats/collector"
 
 	"verifharness/internal/chainfx"
@@ -34,6 +35,7 @@ import (
 type c02case struct {
 	Seed   int64 `json:"seed"`
 	Blocks int   `json:"blocks"`
+	Boot   bool  `json:"bootstrap"` // nobody is validated at genesis (network size 0: god-only bootstrap), contracts from the first block
 	Shards int   `json:"shards"` // > 1: a genesis of several equally sized shards; key holders without identity get invited and activate
 }
 
@@ -46,7 +48,16 @@ type row struct {
 func c02run(c *hx.Ctx, cs c02case) error {
 	var p *pairfx.Pair
 	var err error
-	if cs.Shards > 1 {
+	if cs.Boot {
+		p, err = pairfx.NewPairWith(cs.Seed, true, 8, func(w *chainfx.World, o *chainfx.HistoryOpts) {
+			for a, al := range w.Opts.Alloc {
+				al.State = uint8(state.Candidate)
+				w.Opts.Alloc[a] = al
+			}
+			o.Contracts, o.MoreTypes, o.NoOnline = true, true, true
+			delete(o.Always, 1)
+		})
+	} else if cs.Shards > 1 {
 		p, err = pairfx.NewPairWith(cs.Seed, true, 11, func(w *chainfx.World, o *chainfx.HistoryOpts) {
 			w.AddFresh(6)
 			w.Sharded(cs.Shards)
@@ -66,7 +77,9 @@ func c02run(c *hx.Ctx, cs c02case) error {
 		c.Fail(sig, detail, map[string]interface{}{"case": cs, "at": extra})
 	}
 	// the second replica's identity (key 1) goes online so that it can take turns proposing
-	p.H.S.Send(A, 1, chainfx.OnlineTx(true))
+	if !cs.Boot {
+		p.H.S.Send(A, 1, chainfx.OnlineTx(true))
+	}
 	var included []*types.Transaction
 	capGas := types.MaxBlockSize(A.Cfg.Consensus.EnableUpgrade11)
 	u10 := A.Cfg.Consensus.EnableUpgrade10
@@ -541,6 +554,9 @@ func init() {
 			cs := c02case{Seed: c.Seed*1000 + int64(i), Blocks: 140}
 			if i%2 == 1 {
 				cs.Shards = 3 + i%4/2
+			}
+			if i%4 == 2 {
+				cs.Boot = true
 			}
 			if err := c02run(c, cs); err != nil {
 				return err
